@@ -305,6 +305,90 @@ inline size_t gen_length(const Config &g, size_t cap) {
     return std::min(len, cap);
 }
 
+// Calls made on a descriptor BEFORE the call a check is about ("history" dimension of single-call oracles): each
+// entry is (kind, arg). The stripes handed in come from the pure reference serializer, so nothing here depends on
+// the library's own encode. Results of these calls are only checked where the answer is forced (rc 0 => exact);
+// the point is that whatever they do must not change what the descriptor does afterwards.
+//   1 decode own-configuration stripe (arg selects the erasure set: all data that tolerance allows / some / parity only)
+//   2 reconstruct own-configuration stripe      3 reconstruct a stripe written under ANOTHER checksum type
+//   4 the same with the destination supplied among the fragments      5 the same with too few fragments (fails)
+//   6 decode of a foreign-checksum-type stripe with too few fragments (fails)      7 metadata/validity queries
+inline void prehistory(int desc, const Config &g, const std::vector<int> &hist, fw::Result &r) {
+    using namespace fw;
+    if (g.backend == ref::B_NULL) return;
+    int n = g.n(), t = ref::tolerance(g);
+    for (size_t h = 0; h + 1 < hist.size(); h += 2) {
+        int kind = hist[h], arg = hist[h + 1];
+        size_t len = (size_t)g.k * ref::word_bytes(g) * (1 + arg % 3) + (size_t)(arg % 5);
+        std::vector<uint8_t> data(len);
+        uint64_t sd = 4242 + (uint64_t)arg;
+        for (auto &b : data) b = (uint8_t)splitmix64(sd);
+        Config gw = g;
+        if (kind >= 3 && kind <= 6) gw.ct = g.ct == CT_CRC32 ? CT_NONE : CT_CRC32;
+        auto st = ref::serialize_stripe(gw, data.data(), data.size(), liberasurecode_get_version(), false);
+        auto own = ref::serialize_stripe(g, data.data(), data.size(), liberasurecode_get_version(), false);
+        uint64_t fraglen = st[0].size();
+        std::vector<int> lost;
+        if (kind == 1 || kind == 6) {
+            switch ((arg / 4) % 4) {
+            case 0: for (int i = 0; i < std::min(t, g.k); i++) lost.push_back(i); if (t > g.k && (arg & 64)) lost.push_back(g.k); break;   // every data fragment if tolerance allows
+            case 1: for (int i = 0; i < t; i++) lost.push_back((arg / 16 + i * 3) % n); break;
+            case 2: for (int i = 0; i < std::min(t, g.m); i++) lost.push_back(g.k + i); break;
+            default: lost.push_back((arg / 16) % g.k);
+            }
+            std::sort(lost.begin(), lost.end()); lost.erase(std::unique(lost.begin(), lost.end()), lost.end());
+        }
+        auto survivors = [&](const std::vector<int> &gone, int limit) {
+            std::vector<const std::vector<uint8_t> *> frs;
+            for (int i = 0; i < n && (int)frs.size() < limit; i++) if (std::find(gone.begin(), gone.end(), i) == gone.end()) frs.push_back(&st[i]);
+            return frs;
+        };
+        r.cls("prehistory_kind_" + std::to_string(kind));
+        if (kind == 1) {
+            auto frs = survivors(lost, n);
+            FragSet fs; fs.build(frs, {});
+            DecodeOut d = decode(desc, fs, fraglen, 0);
+            if (d.rc == 0 && d.out != data) r.fail("history decode returned rc 0 with wrong data");
+            if (!fs.unchanged()) r.fail("history decode modified an input");
+            bool all_data = true; for (int i = 0; i < g.k; i++) if (std::find(lost.begin(), lost.end(), i) == lost.end()) all_data = false;
+            if (all_data && d.rc == 0) r.cls("prehistory_decode_from_parity_only");
+        } else if (kind == 2 || kind == 3 || kind == 4) {
+            int dest = (arg / 4) % n;
+            std::vector<int> gone; if (kind != 4) gone.push_back(dest);
+            auto frs = survivors(gone, n);
+            FragSet fs; fs.build(frs, {});
+            ReconOut o = reconstruct(desc, fs, fraglen, dest);
+            if (o.rc == 0 && kind != 4 && o.out != own[dest]) r.fail("history reconstruct returned rc 0 with a fragment that differs from this configuration's own");
+            if (!fs.unchanged()) r.fail("history reconstruct modified an input");
+        } else if (kind == 5) {
+            int dest = (arg / 4) % n;
+            auto frs = survivors({dest}, std::max(0, g.k - 1));
+            if (frs.empty()) continue;
+            FragSet fs; fs.build(frs, {});
+            ReconOut o = reconstruct(desc, fs, fraglen, dest);
+            if (o.rc == 0 && g.k > 1) r.fail("history reconstruct with fewer than k fragments succeeded");
+        } else if (kind == 6) {
+            auto frs = survivors(lost, std::max(0, g.k - 1));
+            if (frs.empty()) continue;
+            FragSet fs; fs.build(frs, {});
+            DecodeOut d = decode(desc, fs, fraglen, 0);
+            if (d.rc == 0 && g.k > 1) r.fail("history decode with fewer than k fragments succeeded");
+        } else if (kind == 7) {
+            ExactBuf fb(st[arg % n]);
+            fragment_metadata_t md; memset(&md, 0, sizeof md);
+            liberasurecode_get_fragment_metadata(fb.p, &md);
+            is_invalid_fragment(desc, fb.p);
+        }
+    }
+}
+inline std::vector<int> gen_prehistory() {
+    using namespace fw;
+    std::vector<int> h;
+    int nh = weighted({0, 3, 2, 1});
+    for (int i = 0; i < nh; i++) { h.push_back(1 + weighted({4, 2, 2, 2, 2, 1, 1})); h.push_back((int)pick(0, 1 << 12)); }
+    return h;
+}
+
 inline std::string hex(const uint8_t *p, size_t n) {
     static const char *d = "0123456789abcdef"; std::string s;
     for (size_t i = 0; i < n; i++) { s += d[p[i] >> 4]; s += d[p[i] & 15]; }
